@@ -155,9 +155,9 @@ def walk_no_nested(fnode):
   while stack:
     n = stack.pop()
     yield n
+    if isinstance(n, (ast.FunctionDef, ast.AsyncFunctionDef, ast.Lambda, ast.ClassDef)):
+      continue     # a nested definition is a statement here; its body is other code
     for ch in ast.iter_child_nodes(n):
-      if isinstance(ch, (ast.FunctionDef, ast.AsyncFunctionDef, ast.Lambda, ast.ClassDef)):
-        continue
       stack.append(ch)
 
 
